@@ -414,7 +414,7 @@ impl Report {
     }
 
     pub fn write_replay(&self, v: &Violation, idx: usize) -> PathBuf {
-        let dir = verif_root().join("replays");
+        let dir = std::env::var_os("VERIF_REPLAYS_DIR").map_or_else(|| verif_root().join("replays"), PathBuf::from);
         let _ = std::fs::create_dir_all(&dir);
         let name = format!("{}-{}-{}-{}.json", v.property, v.engine, self.seed, idx);
         let p = dir.join(name);
@@ -427,7 +427,7 @@ impl Report {
 
     /// Writes the evidence file. `coverage` must hold the keys its level requires.
     pub fn write_evidence(&self, coverage: Value, assumptions: &[&str]) {
-        let dir = verif_root().join("evidence");
+        let dir = std::env::var_os("VERIF_EVIDENCE_DIR").map_or_else(|| verif_root().join("evidence"), PathBuf::from);
         let _ = std::fs::create_dir_all(&dir);
         let wall = self.start.elapsed().as_secs_f64();
         let ev = json!({
